@@ -629,15 +629,20 @@ SubmitLegacy(m0, toks, mode) ==
 Mark(m) == [ctx |-> m.ctx, nested |-> Len(m.nested), input |-> Len(m.input), cs |-> Len(m.code), fs |-> Len(m.fs),
             rs |-> Len(m.rs), ls |-> Len(m.ls), ss |-> Len(m.ss), di |-> Len(m.dict), heap |-> Len(m.heap),
             ds |-> Len(m.ds), rl |-> Len(m.rlog)]
+\*    ... together with the call frames, loop entries and builder marks it left behind (Legacy "stalectl": they stayed,
+\*    visible to a later compile + run but hidden from a later eval by its context).
 UnwindRun(m, k) == [m EXCEPT !.input = Take(@, k.input), !.nested = Take(@, k.nested), !.fs = Take(@, k.fs),
-                             !.ctx = [k.ctx EXCEPT !.ip = Len(m.code)], !.rf = FALSE]
-UnwindBuild(m, k) == [UnwindRun(m, k) EXCEPT !.ctx = k.ctx, !.code = Take(@, k.cs), !.dbg = Take(@, k.cs),
+                             !.ctx = [k.ctx EXCEPT !.ip = Len(m.code)], !.rf = ("stalectl" \notin Legacy)]
+UnwindBuild(m, k) == [UnwindRun(m, k) EXCEPT !.rf = FALSE, !.ctx = k.ctx, !.code = Take(@, k.cs), !.dbg = Take(@, k.cs),
                              !.rs = Take(@, k.rs), !.ls = Take(@, k.ls), !.ss = Take(@, k.ss),
                              !.dict = Take(@, k.di), !.heap = Take(@, k.heap), !.ds = Take(@, k.ds),
                              !.rlog = Take(@, k.rl)]
 Submit(m00, toks, mode) ==
   IF "nounwind" \in Legacy THEN SubmitLegacy(m00, toks, mode) ELSE
-  LET m0 == IF m00.rf THEN [m00 EXCEPT !.rf = FALSE, !.ctx.ip = Len(m00.code)] ELSE m00
+  LET m0 == IF ~m00.rf THEN m00
+            ELSE IF "stalectl" \in Legacy THEN [m00 EXCEPT !.rf = FALSE, !.ctx.ip = Len(m00.code)]
+            ELSE [m00 EXCEPT !.rf = FALSE, !.ctx.ip = Len(m00.code), !.rs = Take(@, m00.ctx.rs_len),
+                             !.ls = Take(@, m00.ctx.ls_len), !.ss = Take(@, m00.ctx.ss_ptr)]
       k == Mark(m0)
       a == Open([m0 EXCEPT !.err = "none", !.errv = NilV, !.errtok = 0], mode)
       b == Intern(a, toks)
